@@ -263,7 +263,7 @@ def run_sequence(rng, n_ops):
                 k = str(rng.choice(RefState.HIST))
                 L = len(ref.hist[k])
                 if L:
-                    r = sm.get_history(k, index=int(rng.integers(L)))
+                    r = sm.get_history(k, index=int(rng.integers(L)), flat=bool(rng.random() < 0.4))      # every argument combination the signature allows
                     if aliases(r, sm):
                         bad.append(("alias-get_history", f"get_history('{k}', index) shares memory with internal state"))
                     hand_back(r, f"get_history('{k}', index)")
